@@ -27,6 +27,41 @@ T = {
     "C12-a": ("C12", "C12.R2|hook-reads-thread-state", "before",
               "an earlier Shuttle run in the process with another failure_persistence + a task panic raised while ExecutionState is borrowed (e.g. inside a ChildLabelFn during spawn): schedule emitted/suppressed according to the first run's configuration",
               "cd demo && cargo run --offline"),
+    "C02-a": ("C02", "C02.R1|switch-first", "before",
+              "rendezvous channel + try_send from another thread + receiver thread with an earlier visible operation followed by a blocking recv on the empty channel: "
+              "the interleaving `earlier op ; try_send ; recv` (try_send -> Full) is unreachable because the recv registers itself without a choice point",
+              "cargo test --offline -p shuttle --test seed_demo"),
+    "C07-a": ("C07", "C07.R3", "before",
+              "a thread exiting with >= 3 live thread-locals whose destructors' relative order is observable (swap_remove(0) reorders from the third on)",
+              "cargo test --offline -p shuttle --test seed_demo"),
+    "C09-a": ("C09", "C09.R1|reinitialize-restarts-stream", "before",
+              "DfsScheduler with allow_random_data = true, a body where whether data is drawn depends on the schedule: an execution following one that drew nothing sees another stream",
+              "cargo test --offline -p shuttle --test seed_demo"),
+    "C10-a": ("C10", "C10.R2|reseed-on-every-path", "after",
+              "random scheduler, >= 2 iterations, a body that draws shuttle::rand data only on some executions: iteration k (drawing) after iteration k-1 (not drawing) is not "
+              "reproduced, data draws included, by check_random_with_seed(seed_k, 1)",
+              "cargo test --offline -p shuttle --test seed_demo"),
+    "C11-a": ("C11", "C11.R2|change-point-always-demotes", "after",
+              "a change point landing on the multi-choice step at which the running task has just blocked, in a program whose bug needs exactly that demotion "
+              "(a blocking operation without a preceding scheduling point, e.g. Barrier::wait): hit probability drops from >= 1/(n*k^(d-1)) to 0",
+              "cargo test --offline -p shuttle --test seed_demo"),
+    "C13-a": ("C13", "C13.R2", "before (who-may table), after (unit rule)",
+              "body draws shuttle::rand values, later calls reset_step_count(), tight max_steps: the count restarts at (#scheduling decisions) instead of the schedule length, "
+              "so executions within the bound are failed / abandoned",
+              "cargo test --offline -p shuttle --test seed_demo"),
+    "C14-a": ("C14", "C14.R5|leak-only-while-panicking", "after",
+              "an execution abandoned by ContinueAfter / a scheduler returning None while a task is suspended inside its function: its stack is force_reset (leaked) instead of unwound, "
+              "values on it survive into the next execution",
+              "cargo test --offline -p shuttle --test seed_demo"),
+    "C15-a": ("C15", "C15.P", "after",
+              "three tasks on one atomic: store by W1, plain store by an unrelated W2, then a load / RMW by R: R's clock does not dominate W1's (the store replaced the variable's clock)",
+              "cargo test --offline -p shuttle --test seed_demo"),
+    "C18-a": ("C18", "C18.R6|closed-only-if-nothing-granted", "after",
+              "strictly fair semaphore: a queued waiter is granted permits by release(), close() runs before the waiter is polled again: the acquisition fails and its permits are neither held nor returned",
+              "cargo test --offline -p shuttle --test seed_demo"),
+    "C20-a": ("C20", "C20.R2|one-lock", "before",
+              "DashMap::get_mut of a present key racing with a removal scheduled between get_mut's read-lock lookup and its write-lock acquisition",
+              "cargo test --offline -p shuttle-dashmap-impl --test seed_demo"),
     "C17-a": ("C17", "C17.R2|wake-sets-woken", "before",
               "a waker invoked (or abort called) while the task is Blocked inside its poll on a blocking primitive (mpsc recv, Condvar, Barrier, join, park): the wake is forgotten and the task sleeps forever",
               "cd demo && cargo test --offline"),
